@@ -85,6 +85,7 @@ def make_scripted(falcon, script, exhaust, partial):
                 e = falcon.MediaMalformedError('scripted')
             else:
                 e = RuntimeError('scripted')
+            e.__cause__ = ValueError('cause of invocation %d' % k)     # as a real handler's `raise ... from err`
             self.errs[id(e)] = (k, e)
             raise e
 
@@ -106,11 +107,27 @@ def make_scripted(falcon, script, exhaust, partial):
     return Scripted()
 
 
+def err_snapshot(e):
+    """What an application (or the error serializer) can see of a raised error."""
+    snap = {'type': type(e).__name__, 'status': getattr(e, 'status', None), 'title': getattr(e, 'title', None),
+            'description': getattr(e, 'description', None), 'cause_id': id(e.__cause__) if e.__cause__ is not None else None,
+            'cause': repr(e.__cause__), 'str': str(e)}
+    try:
+        snap['to_dict'] = json.dumps(e.to_dict(), sort_keys=True, default=repr) if hasattr(e, 'to_dict') else None
+    except Exception as x:  # noqa
+        snap['to_dict'] = 'to_dict raised ' + repr(x)
+    return snap
+
+
+SNAPS = []      # (error object id, snapshot) of every raised error of the current session, in access order
+
+
 def classify(falcon, h, call):
     """Run one get_media call; map the outcome to the model's rout with object identities."""
     try:
         v = call()
     except BaseException as e:  # noqa
+        SNAPS.append((id(e), err_snapshot(e)))
         if id(e) in h.errs and h.errs[id(e)][1] is e:
             k = h.errs[id(e)][0]
         else:
@@ -269,8 +286,21 @@ def check_sessions(ctx, falcon, testing, model):
             body = bytes(rng.randrange(256) for _ in range(rng.randint(2, 40)))
             f = session_wsgi if kind == 'wsgi' else session_asgi
             CUR['log'] = []
+            del SNAPS[:]
             obs, nc, nr, nx = f(falcon, testing, script, ex, ds, body, rng)
             dlog.append(list(CUR['log']))
+            first = {}
+            for acc, (eid, snap) in enumerate(SNAPS):
+                if eid in first and first[eid][1] != snap:
+                    changed = sorted(k_ for k_ in snap if snap[k_] != first[eid][1][k_])
+                    ctx.violation('media-cache-clause',
+                                  {'what': 'later accesses re-raise the same error OBJECT but its content changed: the cached '
+                                           'error was mutated by a later access', 'interface': kind, 'handler_script': script,
+                                   'calls(0=get_media,1=with default,2=.media)': ds, 'changed_fields': changed,
+                                   'first_raise(access %d)' % first[eid][0]: first[eid][1], 'later_raise(access %d)' % acc: snap,
+                                   'clauses_failed': [5], 'clause_names': {5: 'the error object is not mutated by later accesses'}},
+                                  key='sess-error-mutated')
+                first.setdefault(eid, (acc, snap))
             # the model's exhaust counter: 1 iff the handler asks for it
             dsb = [1 if d == 1 else 0 for d in ds]
             cases.append([0, wire_script(script), ex, dsb])
@@ -398,11 +428,11 @@ def deserialize_real(falcon, testing, kind, ctype, body, rng, calls=(0,)):
             v = get(d)
             res.append(('default', repr(CUR['dflt'])) if d and v is CUR['dflt'] else ('ok', v))
         except falcon.MediaNotFoundError as e:
-            res.append(('nf', e))
+            res.append(('nf', e, err_snapshot(e)))
         except falcon.MediaMalformedError as e:
-            res.append(('mal', e))
+            res.append(('mal', e, err_snapshot(e)))
         except BaseException as e:  # noqa
-            res.append(('other', e))
+            res.append(('other', e, err_snapshot(e)))
     return res
 
 
@@ -493,6 +523,12 @@ def check_handlers(ctx, falcon, testing, model):
             if not ok:
                 ctx.violation('media-cache-clause', dict(detail, what='later call differs from the first outcome'),
                               key='json-later')
+            elif len(r) > 2 and len(f0) > 2 and r[1] is f0[1] and r[2] != f0[2]:
+                ctx.violation('media-cache-clause',
+                              dict(detail, what='later accesses re-raise the same error OBJECT but its content changed: the '
+                                                'cached error was mutated by a later access',
+                                   changed_fields=sorted(k_ for k_ in r[2] if r[2][k_] != f0[2][k_]),
+                                   first_raise=f0[2], later_raise=r[2]), key='json-error-mutated')
     ctx.sample({'json_body': metas[1][5][:80].decode('utf-8', 'replace'), 'outcome': metas[1][4][0][0]})
     # URL-encoded forms
     fcases, fmetas = [], []
@@ -511,7 +547,7 @@ def check_handlers(ctx, falcon, testing, model):
             body = body + b'\xe9=1'
             label = 'nonascii'
         for kind in ('wsgi', 'asgi'):
-            res = deserialize_real(falcon, testing, kind, 'application/x-www-form-urlencoded', body, rng, (0, 0))
+            res = deserialize_real(falcon, testing, kind, 'application/x-www-form-urlencoded', body, rng, (0, 0, 0))
             try:
                 body.decode('ascii')
                 a = True
@@ -548,6 +584,16 @@ def check_handlers(ctx, falcon, testing, model):
             if res[1][0] != 'ok' or res[1][1] is not res[0][1]:
                 ctx.violation('media-cache-clause', dict(detail, what='second get_media did not return the same object'),
                               key='form-later')
+        elif len(res[0]) > 2:
+            for r in res[1:]:
+                if r[0] != res[0][0] or r[1] is not res[0][1]:
+                    ctx.violation('media-cache-clause', dict(detail, what='later access did not re-raise the same error object'),
+                                  key='form-later-err')
+                elif r[2] != res[0][2]:
+                    ctx.violation('media-cache-clause',
+                                  dict(detail, what='later accesses re-raise the same error OBJECT but its content changed',
+                                       changed_fields=sorted(k_ for k_ in r[2] if r[2][k_] != res[0][2][k_]),
+                                       first_raise=res[0][2], later_raise=r[2]), key='form-error-mutated')
 
 
 def check_custom_loads(ctx, falcon, testing, model):
